@@ -1,7 +1,7 @@
 (* Properties_C15.v -- trace and debug symbols report what is actually executing.
    Models: AsmLayout.v (symbols written by the assembler), SimModel.v (lookupSymbol, the trace line prefix). *)
 From Coq Require Import ZArith List String.
-From HexVerif Require Import WMap Isa SimModel SimProofs SimProofs15 AsmModel AsmLayout AsmSpec AsmStatements AsmLayoutProofs AsmSymtabProofs Loader.
+From HexVerif Require Import WMap Isa SimModel SimProofs SimProofs15 AsmModel AsmLayout AsmSpec AsmStatements AsmLayoutProofs AsmSymtabProofs Loader SimTraceText SimTraceTextProofs.
 Import ListNotations.
 Local Open Scope Z_scope.
 
@@ -55,6 +55,27 @@ Theorem C15_trace_columns : forall tab n s inp a' inp',
 Proof. exact trace_columns_are_isa. Qed.
 Print Assumptions C15_trace_columns.
 
+(* the same as TEXT: the n-th line hexsim -t prints starts with exactly the bytes SimTraceText.prefix_text gives for
+   (n, pc_n, symbol, opcode, nibble) of the n-th instruction of the ISA trace -- "%-6d %-6d %-12s %-4s %-2d " with the
+   symbol column "<name>+<offset>" or empty, or the shorter form without symbol column when the binary has no symbols.
+   tools/c15.py compares this text (extracted) verbatim with the start of every real trace line. *)
+Theorem C15_trace_line_text : forall tab n s inp a' inp',
+  wf s -> s_cycles s = 0 -> isa_steps n (arch_of s) inp = Some (a', inp') ->
+  exists s', sim_steps n s inp = Some (s', inp') /\
+    trace_line_prefix_text tab s' =
+    prefix_text (has_debug tab) (Z.of_nat n, pc a', trace_symbol tab (pc a'), fetch a' / 16, fetch a' mod 16).
+Proof. exact trace_line_text_is_isa. Qed.
+Print Assumptions C15_trace_line_text.
+
+(* and the text determines the five columns: the total reader SimTraceText.read_prefix recovers the structured prefix
+   from the start of the line, whatever follows it (numbers below 10^25, opcode 0..15, symbol names without blanks,
+   symbol offset below 2^32; without debug symbols there is no symbol column) *)
+Theorem C15_trace_text_determines_columns : forall debug n pc sym opc nib rest,
+  printable (n, pc, sym, opc, nib) -> (debug = false -> sym = None) ->
+  read_prefix debug (prefix_text debug (n, pc, sym, opc, nib) ++ rest) = Some (n, pc, sym, opc, nib).
+Proof. exact read_prefix_text. Qed.
+Print Assumptions C15_trace_text_determines_columns.
+
 (* what the simulator's loader (model of Processor::load) reads back from the file the assembler model writes is
    exactly the image, word for word, and exactly the symbol table (names without NUL bytes, offsets below 2^32) *)
 Theorem C15_loader_roundtrip : forall L img syms,
@@ -76,3 +97,9 @@ Example C15_nonvacuous :
   trace_symbol [("main"%string, 14); ("fib"%string, 50)] 14 = Some ("main"%string, 0) /\
   trace_symbol [("main"%string, 14); ("fib"%string, 50)] 9 = None.
 Proof. repeat split. Qed.
+
+Example C15_text_nonvacuous :
+  AsmModel.string_of_chars (prefix_text true (17, 22, Some ("a_long_procedure_name_xyz"%string, 0), 1, 1)) = "17     22     a_long_procedure_name_xyz+0 LDBM 1  "%string /\
+  AsmModel.string_of_chars (prefix_text true (0, 0, None, 9, 15)) = "0      0                   BR   15 "%string /\
+  AsmModel.string_of_chars (prefix_text false (1234567, 16, None, 14, 1)) = "1234567 16     PFIX 1  "%string.
+Proof. repeat split; vm_compute; reflexivity. Qed.
